@@ -634,6 +634,8 @@ public:
 			ConstKeyIterator rightKeyIter = right.mHashMultiMap.Find(ref.key);
 			if (!rightKeyIter)
 				return false;
+			if (!(ref.key == rightKeyIter->key))
+				return false;
 			if (ref.GetCount() != rightKeyIter->GetCount())
 				return false;
 			if (!std::is_permutation(ref.GetBegin(), ref.GetEnd(), rightKeyIter->GetBegin()))
